@@ -135,6 +135,44 @@ def run(ctx):
         ctx.notes.append(f"{enumerated_rejected_by_oracle} enumerated candidates were not members by memberb and were discarded (e.g. colliding property names)")
     # 2. real Deserialize
     dres = e2e.run_de(ctx, "main", [[pi, qi, jt] for (pi, qi, jt, _, _, _) in wit]) if wit else []
+    # 2b. the acceptance model of Deserialize (Model/De.lean; C02_members_are_accepted) against the real verdicts
+    import re as _re
+    groups = {}
+    for k, w in enumerate(wit):
+        groups.setdefault((w[0], w[1]), []).append(k)
+    mlines, morder = [c.chars], []
+    for (pi, qi), ks in groups.items():
+        prog = c.programs[pi]
+        text = closure_text(prog, prog["probes"][qi]["ty"])
+        names = set(_re.findall(r'"id": "([^"]+)"', text))
+        sub = [it for it in prog["items"] if it["name"] in names]
+        mlines.append({"op": "de_acc", "items": sub, "ty": prog["probes"][qi]["ty"], "jsons": [wit[k][2] for k in ks]})
+        morder.append((ks, '"flatten": true' in text or '"phantom"' in text or '"weak"' in text or '"as":' in text))
+    mres = vlib.run_model(mlines) if len(mlines) > 1 else [None]
+    n_model = n_frag = n_dis = 0
+    if mres is None:
+        ctx.broken.append("de_acc: model driver unavailable")
+    else:
+        for (ks, unsupported), o in zip(morder, mres[1:]):
+            for k, rank, wf in zip(ks, o["ranks"], o["wf"]):
+                d = dres[k]
+                if "no_de" in d or unsupported or not wf:
+                    continue
+                real_ok = "ok" in d and d["ok"] is not None
+                n_model += 1
+                n_frag += 1 if o["frag"] else 0
+                if (rank == 0) != real_ok:
+                    n_dis += 1
+                    if n_dis <= 3:
+                        pi, qi, jt = wit[k][0], wit[k][1], wit[k][2]
+                        ctx.broken.append(f"acceptance model of Deserialize (Model/De.lean) disagrees with serde_json::from_str: rank {rank} vs {'accepted' if real_ok else 'rejected: ' + str(d.get('err'))[:120]} "
+                                          f"for {jt[:200]} at {json.dumps(c.programs[pi]['probes'][qi]['ty'])[:150]}")
+                if o["frag"] and rank > 1:
+                    ctx.broken.append(f"a member inside the fragment of C02_members_are_accepted gets rank {rank} from the model: {wit[k][2][:200]}")
+    ctx.stream("acceptance model of Deserialize vs serde_json", n_model, n_frag,
+               "every kept witness (a member of the real declared type) of every probe whose reachable items use only modelled features: `De.accTy` (rank 0 = accepted) against the real "
+               "serde_json::from_str::<T>; non-trivial = witnesses of probes inside the fragment of C02_members_are_accepted (deFragB evaluated by the driver on the reachable items)",
+               [], {"compared": n_model, "inside_theorem_fragment": n_frag, "disagreements": n_dis})
     # 3. re-serialisation inhabits the type again
     rq, ridx = [], []
     fails = 0
@@ -168,9 +206,10 @@ def run(ctx):
                         "TypeScript meaning as in C01"]
     vlib.settle(ctx)
     proof = dict(proof or {})
-    proof["explanation"] = ("C02 is decided on the implementation: witnesses of the real declared types (enumerated + mutants), filtered by the Lean-proven sound "
-                            "membership test (C02_kept_candidates_are_members), are fed to the real Deserialize; no Lean model of Deserialize exists, so this is not a proof of C02")
-    return ctx.finish(level="other", proof=proof)
+    proof["explanation"] = ("C02_members_are_accepted: in the monomorphic, tagged fragment every JSON value with distinct keys inhabiting the generated type gets rank 0 or 1 (leaf only) from the "
+                            "acceptance model of serde's Deserialize (Model/De.lean), which is compared with the real serde_json::from_str on every kept witness of the run; outside the fragment "
+                            "(generic instantiations, untagged, flatten) the witnesses are fed to the real Deserialize (C02_kept_candidates_are_members makes a rejection a counter-example)")
+    return ctx.finish(proof=proof)
 
 
 def replay(ctx, obj):
